@@ -136,6 +136,10 @@ def main(argv):
         fn = r['name']
         st = per_fn.setdefault(fn, dict(sha256=r.get('sha'), obligations=0, discharged=0, paths=r.get('paths', 0),
                                         gen_s=round(r.get('gen_s', 0), 2), error=r['error']))
+        if r.get('dropped_prefix'):
+            st['partial_function_dropped_prefix'] = r['dropped_prefix']
+        if r.get('helpers_inlined'):
+            st['helpers_inlined'] = r['helpers_inlined']
         if r['error']:
             continue
         base = baseline.get(fn, {})
@@ -191,6 +195,29 @@ def main(argv):
             violations.append(dict(obligation='%s/twin/%s' % (fn, f['label']), kind='twin', clause=f['clause'],
                                    solver_result='concrete execution', solver_output='', function=fn,
                                    function_changed_since_baseline=False, twin_input=f))
+
+    # ---- native probe (bounded): environment facts assumed by the model + definition histories on the real builder
+    probe_summary = None
+    if prop.get('native_probe'):
+        try:
+            pr = subprocess.run(['/venv/bin/python', os.path.join(ROOT, 'pyvc', prop['native_probe'] + '.py'), extract.REPO],
+                                capture_output=True, text=True, timeout=900)
+            pd = json.loads(pr.stdout.strip().splitlines()[-1])
+        except Exception as e:
+            pd = dict(facts={}, scenarios=[], failures=[dict(part='A', error='probe did not run: %r' % (e,))])
+        probe_summary = dict(environment_facts=pd.get('facts', {}), histories=len(pd.get('scenarios', [])),
+                             histories_ok=sum(1 for s_ in pd.get('scenarios', []) if s_.get('ok')))
+        for f in pd.get('failures', []):
+            if f.get('part') == 'A':
+                # the environment model disagrees with CPython: nothing proved under it can be believed
+                undecided.append(dict(obligation='environment-contract/%s' % f.get('fact', 'probe'), kind='env-probe',
+                                      clause='assumed environment fact does not hold natively: %r' % (f,), solver_result='native',
+                                      solver_output='', function=prop['functions'][0]))
+            else:
+                violations.append(dict(obligation='%s/native-history/%s' % (prop['functions'][0], f.get('history', '?').replace(' ', '_')),
+                                       kind='twin', clause='after this history of definitions the class does not behave per its own declaration',
+                                       solver_result='concrete execution', solver_output='', function=prop['functions'][0],
+                                       function_changed_since_baseline=False, twin_input=f))
 
     # vacuity guard: obligation counts must not shrink to zero / below the recorded floor
     for fn, st in per_fn.items():
@@ -262,6 +289,7 @@ def main(argv):
             untranslated=[(r['name'], r['error']) for r in untranslated],
             samples=samples[:12],
             runtime_twin_bounded=twin_summary,
+            native_probe_bounded=probe_summary,
             bounded_stand_ins=[dict(function=fn, bound='%d seeded random cases (run-time twin)' % (twin_budget * 10),
                                     result=twin_summary.get(fn)) for fn in bounded_funcs],
             explanation=prop.get('explanation', ''),
